@@ -317,7 +317,10 @@ impl Standin {
                             if n <= 0 {
                                 return err("ERR invalid expire time in 'set' command");
                             }
-                            expire = Some(now + if o == "EX" { Duration::from_secs(n as u64) } else { Duration::from_millis(n as u64) });
+                            expire = match now.checked_add(if o == "EX" { Duration::from_secs(n as u64) } else { Duration::from_millis(n as u64) }) {
+                                Some(t) => Some(t),
+                                None => return err("ERR invalid expire time in 'set' command"),
+                            };
                             i += 1;
                         }
                         _ => return err("ERR syntax error"),
@@ -345,7 +348,8 @@ impl Standin {
                     return err("ERR invalid expire time");
                 }
                 let d = if name == "SETEX" { Duration::from_secs(n as u64) } else { Duration::from_millis(n as u64) };
-                s.insert(c[1].clone(), Entry { val: Val::Str(c[3].clone()), expire_at: Some(now + d) });
+                let Some(deadline) = now.checked_add(d) else { return err("ERR invalid expire time") };
+                s.insert(c[1].clone(), Entry { val: Val::Str(c[3].clone()), expire_at: Some(deadline) });
                 ok()
             }
             "SETNX" if arity(3) => {
@@ -449,7 +453,10 @@ impl Standin {
                         if n <= 0 {
                             s.remove(&c[1]);
                         } else {
-                            e.expire_at = Some(now + if name == "EXPIRE" { Duration::from_secs(n as u64) } else { Duration::from_millis(n as u64) });
+                            match now.checked_add(if name == "EXPIRE" { Duration::from_secs(n as u64) } else { Duration::from_millis(n as u64) }) {
+                                Some(t) => e.expire_at = Some(t),
+                                None => return err("ERR invalid expire time"),
+                            }
                         }
                         int(1)
                     }
@@ -557,7 +564,14 @@ impl Standin {
                     return err("BUSYKEY Target key name already exists.");
                 }
                 let Some(val) = load_val(&c[3]) else { return err("ERR DUMP payload version or checksum are wrong") };
-                let expire_at = if ttl == 0 { None } else { Some(now + Duration::from_millis(ttl as u64)) };
+                let expire_at = if ttl == 0 {
+                    None
+                } else {
+                    match now.checked_add(Duration::from_millis(ttl as u64)) {
+                        Some(t) => Some(t),
+                        None => return err("ERR Invalid TTL value"),
+                    }
+                };
                 s.insert(c[1].clone(), Entry { val, expire_at });
                 ok()
             }
@@ -796,7 +810,7 @@ impl ProxyNode {
             announce_address: addr.to_string(),
             announce_host: host_of(addr),
             slowlog_len: NonZeroUsize::new(16).expect("nz"),
-            slowlog_log_slower_than: AtomicI64::new(i64::MAX / 2),
+            slowlog_log_slower_than: AtomicI64::new(50000),
             slowlog_sample_rate: AtomicU64::new(1000),
             thread_number: NonZeroUsize::new(1).expect("nz"),
             backend_conn_num: NonZeroUsize::new(opts.backend_conn_num.max(1)).expect("nz"),
